@@ -20,6 +20,7 @@ import (
 	"sort"
 	"strconv"
 	"strings"
+	"sync"
 	"time"
 
 	recv "github.com/Dash-Industry-Forum/livesim2/cmd/cmaf-ingest-receiver/app"
@@ -504,6 +505,29 @@ func c17Restart(r *Rng, vInit, aInit []byte, viol func(kind, what string, ops []
 		return
 	}
 	count("receiver-restart-runs")
+	twin := r.Intn(2) == 0
+	if twin {
+		count("receiver-restart-runs.twin-sources")
+	}
+	defer func() {
+		// every track is in the channel's MPD once
+		waitFor(2*time.Second, func() bool { _, err := os.Stat(filepath.Join(dir, "ch", "manifest.mpd")); return err == nil })
+		if mb, err := os.ReadFile(filepath.Join(dir, "ch", "manifest.mpd")); err == nil {
+			if m, err := parseMPD(mb); err == nil && len(m.Periods) > 0 {
+				seen := map[string]int{}
+				for i := range m.Periods[0].Sets {
+					for _, rp := range m.Periods[0].Sets[i].Representations {
+						seen[rp.ID]++
+					}
+				}
+				for id, n := range seen {
+					if n != 1 {
+						viol("restart-registration", fmt.Sprintf("after the restart the channel's MPD has %d Representations with id %s", n, id), []string{tag}, nil)
+					}
+				}
+			}
+		}
+	}()
 	for k := 3; k < 6; k++ {
 		for _, t := range tracks {
 			path := fmt.Sprintf("/upload/ch/%s/%d%s", t.name, seq0+uint32(k), t.ext)
@@ -513,7 +537,22 @@ func c17Restart(r *Rng, vInit, aInit []byte, viol func(kind, what string, ops []
 					return
 				}
 			}
-			if code := put(h2, path, seg(t, k), "secret"); code != 200 {
+			if k == 3 && twin {
+				// two redundant sources send the track's first segment after the restart at the same moment: the track is
+				// registered (from its stored init segment) once
+				var wg sync.WaitGroup
+				codes := make([]int, 2)
+				body := seg(t, k)
+				for i := 0; i < 2; i++ {
+					wg.Add(1)
+					go func(i int) { defer wg.Done(); codes[i] = put(h2, path, body, "secret") }(i)
+				}
+				wg.Wait()
+				if codes[0] != 200 && codes[1] != 200 {
+					viol("restart-upload", fmt.Sprintf("PUT %s sent twice at the same moment with the right credentials answered %d and %d", path, codes[0], codes[1]), []string{tag}, nil)
+					return
+				}
+			} else if code := put(h2, path, seg(t, k), "secret"); code != 200 {
 				viol("restart-upload", fmt.Sprintf("PUT %s with the right credentials answered %d after a refused request for the same track", path, code), []string{tag}, nil)
 				return
 			}
